@@ -240,6 +240,10 @@ fn build_program(r: &mut Rng, class: Class) -> Built {
         }
         _ => {}
     }
+    // minimisation protocol (`--keep p0,p1,..`): elements = the instructions of all functions of the program, in order;
+    // dropped ones become `nop` (indices, edges, addresses unchanged; initial state and step budget stay)
+    let mut base = 0;
+    for f in fs.iter_mut() { base += nop_dropped(f, base); }
     Built { program: program_of(fs), tags, addr_bits: o.addr_bits }
 }
 
@@ -450,9 +454,10 @@ fn gen_case(seed: u64, index: u64) -> Case {
         listing.push_str(&format!("{}", f.control_flow_graph()).replace('\n', " | "));
     }
     listing.truncate(700);
+    let nelems: usize = program.functions().iter().map(|f| instr_count(f)).sum();
     let descr = format!(
-        "case {} class={:?} addr_bits={} endian={} functions={} blocks={} steps={} end={} :: {}",
-        index, class, built.addr_bits, if big { "big" } else { "little" }, program.functions().len(), nblocks, steps.len(), end_kind, listing
+        "{}case {} class={:?} addr_bits={} endian={} functions={} blocks={} steps={} end={} :: {}",
+        keep_prefix("instructions", nelems), index, class, built.addr_bits, if big { "big" } else { "little" }, program.functions().len(), nblocks, steps.len(), end_kind, listing
     );
     let key = format!("{:x}", {
         // cheap stable hash of the case text
@@ -460,7 +465,7 @@ fn gen_case(seed: u64, index: u64) -> Case {
         for b in coq.bytes() { h ^= b as u64; h = h.wrapping_mul(0x100000001b3); }
         h
     });
-    Case { coq, descr, tags, nontrivial, key }
+    Case { coq, descr, tags, nontrivial, key }.with_elements(nelems)
 }
 
 fn main() {
